@@ -76,6 +76,9 @@ def eargs_coq(ea):
 
 
 def mk_epochs(ts, ea):
+    if ea.get("pos"):     # positional: (t0, stop, offset, start, duration, time_unit)
+        return ts.Epochs(mk_arg(ts, ea.get("t0")), mk_arg(ts, ea.get("stop")), mk_arg(ts, ea.get("offset")),
+                         mk_arg(ts, ea.get("start")), mk_arg(ts, ea.get("duration")), ea.get("unit"))
     return ts.Epochs(t0=mk_arg(ts, ea.get("t0")), stop=mk_arg(ts, ea.get("stop")), offset=mk_arg(ts, ea.get("offset")),
                      start=mk_arg(ts, ea.get("start")), duration=mk_arg(ts, ea.get("duration")), time_unit=ea.get("unit"))
 
@@ -135,8 +138,29 @@ def axis_wf(a):
 
 def mk_series(ts, s):
     data = np.array(s["data"], dtype=np.int64).reshape(s["shape"])
-    return ts.TimeSeries(data, sampling_interval=ts.TimeArray(np.int64(s["dt"]), time_unit="ps"),
-                         t0=ts.TimeArray(np.int64(s["t0"]), time_unit="ps"), time_unit=s["u"])
+    dv = s.get("dv")
+    si = ts.TimeArray(np.int64(s["dt"]), time_unit="ps")
+    t0 = ts.TimeArray(np.int64(s["t0"]), time_unit="ps")
+    if dv == "fortran":
+        data = np.asfortranarray(data)
+    elif dv == "strided":
+        big = np.full(tuple(s["shape"][:-1]) + (2 * s["shape"][-1],), -7, dtype=np.int64)
+        big[..., ::2] = data
+        data = big[..., ::2]
+    if dv == "time_arg":
+        u = ts.UniformTime(length=s["shape"][-1], sampling_interval=si, t0=t0, time_unit=s["u"])
+        r = ts.TimeSeries(data, time=u, time_unit=s["u"])
+    elif dv == "float_interval":     # the same interval / t0 as bare floats in the series' unit (generated only when exact)
+        f = float(FACT[s["u"]])
+        r = ts.TimeSeries(data, sampling_interval=s["dt"] / f, t0=s["t0"] / f, time_unit=s["u"])
+    else:
+        r = ts.TimeSeries(data, sampling_interval=si, t0=t0, time_unit=s["u"])
+    if dv == "copy":
+        r = r.copy()
+    if (int(r.t0), int(r.sampling_interval), r.time_unit) != (s["t0"], s["dt"], s["u"]):
+        raise RuntimeError("series state (t0, interval, unit) = %s differs from its specification %s" % (
+            (int(r.t0), int(r.sampling_interval), r.time_unit), (s["t0"], s["dt"], s["u"])))
+    return r
 
 
 def columns(arr):
@@ -181,6 +205,56 @@ def events_coq(e):
     return "(mk_events %s %s)" % (tarr_coq(e["time"]), cols_coq(ev_records(d, n)))
 
 
+# ------------------------------------------------------------------ derived objects / alternative argument forms
+TIME_DV = [None, None, None, "copy", "copycopy", "view", "add0", "npcopy", "strided", "rewrap"]
+AXIS_DV = [None, None, None, "copy", "copycopy", "view", "npcopy", "rewrap"]
+SERIES_DV = [None, None, None, "copy", "fortran", "strided", "time_arg", "float_interval"]
+
+
+def derive_time(ts, t, dv):
+    """the same time array reached another way (copy, view, ufunc result, non-contiguous view, ...)"""
+    import copy as _copy
+    if dv is None or t.ndim == 0:
+        return t
+    if dv == "copy":
+        return t.copy()
+    if dv == "copycopy":
+        return _copy.copy(t)
+    if dv == "view":
+        return t[:]
+    if dv == "add0":
+        return t + 0
+    if dv == "npcopy":
+        return np.copy(t, subok=True)
+    if dv == "strided":
+        big = np.empty(2 * len(t), dtype=np.int64)
+        big[::2] = np.asarray(t)
+        big[1::2] = -1
+        r = ts.TimeArray(big, time_unit="ps", copy=False)[::2]
+        r.convert_unit(t.time_unit)
+        return r
+    if dv == "rewrap":
+        return ts.TimeArray(t)
+    raise ValueError(dv)
+
+
+def derive_axis(ts, u, dv):
+    import copy as _copy
+    if dv is None:
+        return u
+    if dv == "copy":
+        return u.copy()
+    if dv == "copycopy":
+        return _copy.copy(u)
+    if dv == "view":
+        return u[:]
+    if dv == "npcopy":
+        return np.copy(u, subok=True)
+    if dv == "rewrap":
+        return ts.UniformTime(u)
+    raise ValueError(dv)
+
+
 # ------------------------------------------------------------------ running one action
 def obs_times(r):
     a = np.asarray(r)
@@ -210,11 +284,13 @@ def run_action(a):
     try:
         k = a["act"]
         if k in ("tindex", "tat", "tslice", "tduring"):
-            s = mk_time(ts, a["self"])
+            s = derive_time(ts, mk_time(ts, a["self"]), a.get("dv"))
             if k == "tindex":
                 kw = {}
                 if a.get("tol") is not None:
                     kw["tol"] = mk_arg(ts, a["tol"])
+                if a.get("pos"):      # positional call
+                    return obs_idx(s.index_at(mk_arg(ts, a["q"]), kw.get("tol"), a["mode"]))
                 return obs_idx(s.index_at(mk_arg(ts, a["q"]), mode=a["mode"], **kw))
             if k == "tat":
                 kw = {}
@@ -228,7 +304,7 @@ def run_action(a):
                 return obs_slice(s.slice_during(e))
             return obs_times(s[e] if a.get("via") == "getitem" else s.during(e))
         if k in ("uwf", "uindex", "uat", "uslice", "uduring"):
-            u = mk_axis(ts, a["build"])
+            u = derive_axis(ts, mk_axis(ts, a["build"]), a.get("dv"))
             stt = axis_state(u)
             if stt != a["axis"]:
                 return {"t": "other", "what": "axis state changed since generation"}
@@ -667,19 +743,21 @@ def oracle(a, o):
 
 # ------------------------------------------------------------------ generators
 def gen_unit(rng):
-    return rng.choice(["ps", "ns", "us", "ms", "ms", "s", "s", "m", "h"])
+    return rng.choice(["ps", "ns", "us", "ms", "ms", "s", "s", "m", "h", "ms", "s", "D", "W"])
 
 
 def other_unit(rng, u):
     return rng.choice([x for x in UNITS if x != u])
 
 
-def gen_times(rng, u, kind=None):
+def gen_times(rng, u, kind=None, nbig=None):
     """a 1-d time array description: grid g (ps), positions; sorted / duplicates / unsorted"""
     f = FACT[u]
     g = rng.choice([f, f, f // 2 if f > 1 else 1, f // 4 if f > 3 else 1, 7, 1, 3 * f])
     kind = kind or rng.choice(["strict", "strict", "dups", "dups", "unsorted"])
     n = rng.randint(1, 8)
+    if nbig:
+        n = nbig
     base = rng.randint(-6, 6)
     ks = []
     cur = base
@@ -689,12 +767,17 @@ def gen_times(rng, u, kind=None):
     if kind == "unsorted":
         rng.shuffle(ks)
     shift = big_shift(rng) if rng.random() < 0.2 else 0
-    return {"p": [k * g + shift for k in ks], "u": u, "sc": False}, g
+    p = [k * g + shift for k in ks]
+    if max(abs(x) for x in p) + 4 * g >= 2 ** 62 - 2 ** 58:      # stay inside the property's range
+        p = [k * g for k in ks]
+    return {"p": p, "u": u, "sc": False}, g
 
 
 def big_shift(rng):
     """a picosecond offset beyond the float64 integer range (2^53 ps ~ 2.5 h) but far inside int64:
     arithmetic done in floats instead of int64 shows up there"""
+    if rng.random() < 0.25:
+        return rng.choice([-1, 1]) * (2 ** 61 + 2 ** 60 - rng.randint(0, 2 ** 40))   # close to the 2^62 ps limit
     return rng.choice([-1, 1]) * (2 ** rng.randint(53, 60) + rng.randint(-5, 5))
 
 
@@ -747,7 +830,7 @@ def gen_tol(rng, u, g):
     if r < 0.3:
         return None
     f = FACT[u]
-    v = rng.choice([0, 1, 2, g // 2, g, g + 1, 2 * g, -1, -g])
+    v = rng.choice([0, 0, 1, 2, g // 2, g, g + 1, 2 * g, -1, -g, 2 ** 55 + 1])
     return express(rng, [v], u)
 
 
@@ -820,7 +903,7 @@ def gen_bad_eargs(rng, u):
         {"unit": u, "start": two, "duration": two}, {"unit": u, "start": two, "stop": two, "t0": three}])
 
 
-def gen_axis_build(rng):
+def gen_axis_build(rng, nbig=None):
     """a constructor call of UniformTime; most are well-formed (integer-picosecond interval)"""
     u = gen_unit(rng)
     f = FACT[u]
@@ -832,6 +915,13 @@ def gen_axis_build(rng):
     if rng.random() < 0.2:      # far from 0: beyond 2^53 ps
         t0arg = {"kind": "time", "t": {"p": [big_shift(rng)], "u": other_unit(rng, u), "sc": True}}
         r = 0.4 + 0.3 * rng.random()        # interval given as a whole number of picoseconds
+    if nbig:
+        n = nbig
+    if rng.random() < 0.06:     # an interval beyond 2^53 ps, few samples
+        n = rng.randint(1, 4)
+        dtps = 2 ** rng.randint(53, 58) + rng.choice([0, 1, 3])
+        return {"kw": {"length": n, "sampling_interval": {"kind": "time", "t": {"p": [dtps], "u": rng.choice(UNITS), "sc": True}},
+                       "t0": rng.choice([0, -3, {"kind": "time", "t": {"p": [-2 ** 59 - 5], "u": "ps", "sc": True}}]), "time_unit": u}}
     if r < 0.4:
         dt = rng.choice([1, 2, 3, 5, 10])
         kw = {"length": n, "sampling_interval": dt, "t0": t0arg, "time_unit": u}
@@ -853,17 +943,32 @@ def gen_axis_build(rng):
     return {"kw": kw}
 
 
-def gen_series(rng):
+def gen_series(rng, nbig=None):
     u = gen_unit(rng)
     f = FACT[u]
     n = rng.randint(1, 9) if rng.random() < 0.9 else rng.randint(10, 40)
     lead = rng.choice([[], [], [2], [3], [2, 2], [1], [2, 3]])
+    if nbig:
+        n, lead = nbig, rng.choice([[], [2]])
     shape = lead + [n]
     tot = int(np.prod(shape))
     dt = rng.choice([f, 2 * f, f // 4 if f > 3 else 3, 7, 813270000001, 3 * f, rng.randint(1, 10 ** 6)])
     t0 = rng.choice([0, 0, -3 * dt, 5 * dt + rng.randint(0, 3), -f - 1, 2 * f])
     if rng.random() < 0.2:
         t0 = big_shift(rng)
+    if rng.random() < 0.05:
+        dt = 2 ** rng.randint(53, 56) + rng.choice([0, 1, 3])
+        t0 = rng.choice([0, -dt, 5])
+    if abs(t0) + (n + 2) * dt >= 2 ** 62 - 2 ** 58:
+        t0 = 0
+    dv = rng.choice(SERIES_DV)
+    if dv == "float_interval":
+        ff = float(f)
+        if not (rne(Fraction((dt / ff) * ff)) == dt and rne(Fraction((t0 / ff) * ff)) == t0 and
+                rne(Fraction((n * (dt / ff)) * ff)) == n * dt and dt < 2 ** 52 and abs(t0) < 2 ** 52):
+            dv = None
+    if dv:
+        return {"data": [rng.randint(-99, 99) for _ in range(tot)], "shape": shape, "dt": dt, "t0": t0, "u": u, "dv": dv}
     return {"data": [rng.randint(-99, 99) for _ in range(tot)], "shape": shape, "dt": dt, "t0": t0, "u": u}
 
 
@@ -879,12 +984,30 @@ def gen_events(rng):
     return {"time": tm, "data": data}, g
 
 
-def gen_action(rng, ts):
+def gen_action(rng, ts, nbig=None):
+    """nbig: a sample count beyond the usual 1..40 (1025, 2049, 4097, ...) for the object indexed"""
+    a = gen_action0(rng, ts, nbig)
+    k = a["act"]
+    if k in ("tindex", "tat", "tslice", "tduring"):
+        dv = rng.choice(TIME_DV)
+        if dv:
+            a["dv"] = dv
+        if k == "tindex" and rng.random() < 0.3:
+            a["pos"] = True
+    e = a.get("e") or (a.get("key") or {}).get("e")
+    if e is not None and rng.random() < 0.3:
+        e["pos"] = True
+    return a
+
+
+def gen_action0(rng, ts, nbig=None):
     r = rng.random()
+    if nbig:
+        r = rng.choice([0.1, 0.45, 0.7])
     via = "getitem" if rng.random() < 0.25 else "method"
     if r < 0.30:
         u = gen_unit(rng)
-        s, g = gen_times(rng, u)
+        s, g = gen_times(rng, u, kind=rng.choice(["strict", "dups"]) if nbig else None, nbig=nbig)
         r2 = rng.random()
         if r2 < 0.6:
             if rng.random() < 0.1:
@@ -903,17 +1026,18 @@ def gen_action(rng, ts):
         return {"act": rng.choice(["tslice", "tduring"]), "self": s, "e": e, "via": via}
     if r < 0.6:
         while True:
-            b = gen_axis_build(rng)
+            b = gen_axis_build(rng, nbig)
+            dv = rng.choice(AXIS_DV)
             try:
-                ax = axis_state(mk_axis(ts, b))
+                ax = axis_state(derive_axis(ts, mk_axis(ts, b), dv))
             except Exception:  # noqa  (sub-picosecond interval: C02's business)
                 continue
-            if ax["dt"] > 0 and 1 <= len(ax["samples"]) <= 120:
+            if ax["dt"] > 0 and 1 <= len(ax["samples"]) <= 5000 and max(abs(ax["t0"]), abs(ax["t0"] + ax["dur"])) < 2 ** 62 - 2 ** 58:
                 break
         p, g = ax["samples"], ax["dt"]
         r2 = rng.random()
         if r2 < 0.05:
-            return {"act": "uwf", "build": b, "axis": ax}
+            return {"act": "uwf", "build": b, "axis": ax, "dv": dv}
         span = p + [ax["t0"] + ax["dur"] - 1, ax["t0"] + ax["dur"]]
         uni = (ax["t0"], ax["dt"], ax["dur"])
         if r2 < 0.6:
@@ -923,14 +1047,14 @@ def gen_action(rng, ts):
                         scalar=(m == 1 and rng.random() < 0.9))
             if rng.random() < 0.3:
                 ok_key = q["kind"] == "time" or (q["kind"] == "float" and q["sc"])   # keys __getitem__ reads as times
-                return {"act": "uat", "build": b, "axis": ax, "q": q, "via": via if ok_key else "method"}
-            return {"act": "uindex", "build": b, "axis": ax, "q": q, "boolean": rng.random() < 0.15}
+                return {"act": "uat", "build": b, "axis": ax, "q": q, "via": via if ok_key else "method", "dv": dv}
+            return {"act": "uindex", "build": b, "axis": ax, "q": q, "boolean": rng.random() < 0.15, "dv": dv}
         inside = rng.random() < 0.75
         e = gen_eargs(rng, ax["u"], span, g, array=rng.random() < 0.05, uni=uni,
                       lo=ax["t0"] if inside else None, hi=ax["t0"] + ax["dur"] if inside else None)
-        return {"act": rng.choice(["uslice", "uduring"]), "build": b, "axis": ax, "e": e, "via": via}
+        return {"act": rng.choice(["uslice", "uduring"]), "build": b, "axis": ax, "e": e, "via": via, "dv": dv}
     if r < 0.85:
-        s = gen_series(rng)
+        s = gen_series(rng, nbig)
         n = s["shape"][-1]
         p = [s["t0"] + i * s["dt"] for i in range(n)]
         span = p + [p[-1] + s["dt"] - 1, p[-1] + s["dt"]]
